@@ -144,6 +144,10 @@ func RunOne(p *Property, c *Ctx) {
 			}
 			pv := fmt.Sprint(r)
 			sig, inLib := ClassifyStack(pv, stack)
+			if inLib && FaultInROBuf(r) {
+				c.Violation(p.ID+"|input-modified|write-fault", "the library wrote to its (read-only mapped) input bytes: "+Trunc(pv, 200), map[string]any{"panic": pv, "stack": Trunc(stack, 4000)})
+				return
+			}
 			if !inLib {
 				c.S.Notes["harness_error"] = fmt.Sprintf("case %d: %s\n%s", c.Index, pv, Trunc(stack, 3000))
 				c.S.Observed["harness_errors"]++
